@@ -35,7 +35,30 @@ GROUPS = {
     'log': Group('log', filt(False), defines=['VF_UF_ADDSUB', 'VF_LOG'], cxx_defines=['private=public'], **SRC),
     'sched': Group('sched', filt(True), defines=['VF_UF_ADDSUB', 'VF_SCHEDULE'], cxx_defines=['private=public', 'FWD_HELPERS'], **SRC),
 }
+def filt_avx(repo_src, dst):
+    f = filt(False)(repo_src, dst)
+    f.drop_function('goldilocks_base_field_avx.hpp', 'Goldilocks::mult_avx', expect=1, rule='E-callee')
+    f.drop_function('goldilocks_base_field_avx.hpp', 'Goldilocks::square_avx', expect=1, rule='E-callee')
+    f.drop_function('goldilocks_base_field_avx512.hpp', 'Goldilocks::mult_avx512', expect=1, rule='E-callee')
+    f.drop_function('goldilocks_base_field_avx512.hpp', 'Goldilocks::square_avx512', expect=1, rule='E-callee')
+    f.drop_function('poseidon_goldilocks.cpp', 'PoseidonGoldilocks::hash_full_result_avx512', expect=1, rule='E-drop')
+    f.drop_function('poseidon_goldilocks.cpp', 'PoseidonGoldilocks::linear_hash_avx512', expect=1, rule='E-drop')
+    f.drop_function('poseidon_goldilocks.cpp', 'PoseidonGoldilocks::merkletree_avx512', expect=1, rule='E-drop')
+    f.drop_function('poseidon_goldilocks.cpp', 'PoseidonGoldilocks::merkletree_batch_avx512', expect=1, rule='E-drop')
+    return f
+AVXSRC = dict(cpp=['props/C06/wrappers_avx.cpp', 'props/C06/forwarders_avx.cpp'], c=['props/C06/contracts_avx.c'], repo_cpp=['goldilocks_base_field.cpp'])
+GROUPS['avx2'] = Group('avx2', filt_avx, defines=["VF_W=4"], cxx_defines=['private=public', '__AVX512__'], **AVXSRC)
+GROUPS['avx512'] = Group('avx512', filt_avx, defines=["VF_W=8"], cxx_defines=['private=public', '__AVX512__'], **AVXSRC)
+GROUPS['avx2u'] = Group('avx2u', filt_avx, defines=['VF_W=4', 'VF_UF_ADDSUB'], cxx_defines=['private=public', '__AVX512__'], **AVXSRC)
+GROUPS['avx512u'] = Group('avx512u', filt_avx, defines=['VF_W=8', 'VF_UF_ADDSUB'], cxx_defines=['private=public', '__AVX512__'], **AVXSRC)
 UNITS = []
+PA = 'src/poseidon_goldilocks_avx.hpp'; PA5 = 'src/poseidon_goldilocks_avx512.hpp'
+for n in ('add_avx', 'add_avx_a', 'add_avx_small', 'pow7_avx'):
+    UNITS.append(Unit('q_' + n, 'avx2u' if 'pow7' in n else 'avx2', 'q_' + n, replace=(['k_mult_avx'] if 'pow7' in n else []), functions=['PoseidonGoldilocks::%s (%s)' % (n, PA)], timeout=600))
+for n in ('add_avx512', 'add_avx512_small', 'pow7_avx512'):
+    UNITS.append(Unit('q_' + n, 'avx512u' if 'pow7' in n else 'avx512', 'q_' + n, replace=(['k_mult_avx512'] if 'pow7' in n else []), functions=['PoseidonGoldilocks::%s (%s)' % (n, PA5)], timeout=(2400 if 'pow7' in n else 600), tier=('thorough' if 'pow7' in n else 'quick')))
+UNITS.append(Unit('tables', 'avx2', 'tables', harness='hl_tables', light=True, flags=['--unwind', '145', '--unwinding-assertions'], loops='unwind 145 (table sizes 118 / 144)',
+                  functions=['PoseidonGoldilocksConstants::C / M / M_ / P / P_ (src/poseidon_goldilocks_constants.hpp): operand-range facts and re-layout'], timeout=600))
 for h in HELPERS:
     UNITS.append(Unit('p_' + h, 'log' if h in ('pow7_', 'pow7add_', 'mvp_') else 'helpers', 'p_' + h, harness='hl_p_' + h, light=True, flags=['--unwind', '145' if h == 'mvp_' else '13', '--unwinding-assertions'], loops='unwind 13 (constant trip count 12; harness copy loop 144 for mvp_)', timeout=900,
                       functions=['PoseidonGoldilocks::%s (src/%s)' % (h, PH)]))
@@ -45,7 +68,7 @@ _g, _u = import_units('C01', lambda n: re.match(r'w_(mul|add)(_oa|_ob|_ab|_oab|_
 GROUPS.update(_g); UNITS += _u
 TRUSTED_BASE = ['caller-facing contracts of scalar mul / add over uninterpreted field operations (C01)', 'E-norm specifier-order rewrite, -Dprivate=public for the wrapper unit',
                 'NOT PROVED: that the optimised schedule (sparse partial-round matrices S, pre-mixed matrix P) equals the textbook Poseidon with the dense MDS matrix - the specification used here IS the optimised schedule with the library tables',
-                'NOT COVERED in this check: the AVX2 and AVX-512 permutations hash_full_result / hash_full_result_avx512 (their kernels are under contract in C02/C11/C13/C14; the top-level equivalence with the scalar permutation is not decided)']
+                'NOT COVERED: the top level of the AVX2 and AVX-512 permutations hash_full_result / hash_full_result_avx512 (their vector helpers pow7_avx*, add_avx*(_small) and the table facts they rely on ARE under contract here, the matrix kernels in C13/C14; the equivalence of the vector schedule with the scalar one is not decided)']
 ASSUMPTIONS = []
 EXPLANATION = 'Scalar permutation: helper DAGs + call-by-call schedule / data-flow monitor (4 + 22 + 4 rounds, x^7, tables C, S, M, P).'
 MANIFEST_ENTRY = dict(category='proof', technique='CBMC light harnesses: helper functions against exact DAGs over uninterpreted field operations; top level against a ghost schedule / data-flow monitor',
